@@ -128,6 +128,8 @@ class ProtoExporter:
 
         # Create its Signal-objects, which include the hdl21.Module's Ports
         for sig in list(module.signals.values()) + list(module.ports.values()):
+            if sig.width < 1:  # Checked at creation, but the width may have been changed since
+                raise RuntimeError(f"Cannot export Signal {sig.name} of Module {module.name} with width {sig.width}")
             psig = vckt.Signal(name=sig.name, width=sig.width)
             pmod.signals.append(psig)
 
@@ -146,6 +148,18 @@ class ProtoExporter:
         # Create the Module's `literal`s
         for literal in module.literals:
             pmod.literals.append(export_literal(literal))
+
+        # Attribute names are unique by construction. The exported names however are those of the attributes themselves,
+        # which differ when one object is held under two names, or was renamed after it was added.
+        for kind, names in (
+            ("Signal", [s.name for s in pmod.signals]),
+            ("Instance", [i.name for i in pmod.instances]),
+        ):
+            repeated = sorted({n for n in names if names.count(n) > 1})
+            if repeated:
+                msg = f"Cannot export Module {module.name}: {kind} name(s) {repeated} would be declared more than once. "
+                msg += "(Is one object stored under two names, or was it renamed after being added?)"
+                raise RuntimeError(msg)
 
         # Check the name again: an instantiated (transitive) child module may have taken it since,
         # when `module` has a same-named Module among its own dependencies.
@@ -318,6 +332,11 @@ def export_slice(slize: Slice) -> vckt.Slice:
         raise RuntimeError(msg)
     if slize.step != 1:
         msg = f"Export error: {slize} has non-unit step"
+        raise RuntimeError(msg)
+
+    if not (0 <= slize.bot < slize.top <= slize.parent.width):
+        # A slice's bounds are worked out once. Its parent's width may have been changed since.
+        msg = f"Export error: {slize} is outside its parent Signal {slize.parent.name} of width {slize.parent.width}"
         raise RuntimeError(msg)
 
     # Move to HDL-style indexing, with inclusive `top` index.
@@ -495,6 +514,9 @@ def export_external_module(emod: ExternalModule) -> vckt.ExternalModule:
     pmod = vckt.ExternalModule(name=qname, spicetype=emod.spicetype.to_schema())
 
     # Create its Port-objects, which also require Vlsir Signal objects
+    names = [port.name for port in emod.port_list]
+    if len(set(names)) != len(names):
+        raise RuntimeError(f"Cannot export ExternalModule {emod.name} with repeated port names {names}")
     for port in emod.port_list:
         psig = vckt.Signal(name=port.name, width=port.width)
         pmod.signals.append(psig)
